@@ -771,6 +771,8 @@ static void conf_parse_entry(struct conf_parse *parse, struct conf_node_object *
                 if (ch != ',')
                     longjmp(parse->env, PARSE_EXPECTED_COMMA);
             }
+            /* Leave the terminator for the check at the end of this function. */
+            parse->curr--;
             conf_set_string_list_value(node, &new_value);
             string_vector_clear_int(&new_value);
         } else {
